@@ -87,12 +87,12 @@ def configs(ctx):
                              "spec": dict(base, mapping=mapping), "extents": ex2, "policies": ["M", "H"],
                              "allowed_rejects": STATED_REJECTS})
     # an additional, non-projected input co-iterated with the partitioned output rank
-    for first in (False, True):
-        fs = [T("I", {"q": 1, "s": 1}), T("G", "q"), T("F", "s")]
+    for first, cq in ((False, 1), (True, 1), (False, 2)):
+        fs = [T("I", {"q": cq, "s": 1}), T("G", "q"), T("F", "s")]
         if first:
             fs = [fs[1], fs[0], fs[2]]
         base = {"decl": {"I": ["W"], "F": ["S"], "G": ["Q"], "O": ["Q"]}, "exprs": [E("O", ["q"], times(*fs))]}
-        exts = [{"Q": 4, "S": 2, "W": 5}, {"Q": 3, "S": 2, "W": 4}]
+        exts = [{"Q": 4, "S": 2, "W": cq * 3 + 2}, {"Q": 3, "S": 2, "W": cq * 2 + 2}]
         for st in (None, ["uniform_shape(2)"]):
             part = None if st is None else {"Q": list(st), "W": ["follow(Q)"]}
             outs = ["Q"] if st is None else levels("Q", len(st))
@@ -102,7 +102,7 @@ def configs(ctx):
                     mapping["partitioning"] = {"O": part}
                 if lo is not None:
                     mapping["loop-order"] = {"O": lo}
-                work.append({"tag": "F1dG(1,1)/%s" % ("none" if st is None else "u(2)"), "spec": dict(base, mapping=mapping),
+                work.append({"tag": "F1dG(%d,1)/%s" % (cq, "none" if st is None else "u(2)"), "spec": dict(base, mapping=mapping),
                              "extents": exts, "policies": ["M", "H"], "allowed_rejects": STATED_REJECTS})
     # three index variables, negative coefficients (low-side halos)
     for cs, cv in [(1, 1), (-1, -1), (1, -1)] + ([] if quick else [(-1, -2), (2, -1)]):
@@ -128,6 +128,14 @@ def configs(ctx):
                     mapping["loop-order"] = {"O": lo}
                 work.append({"tag": "F1v3(%d,%d)/%s" % (cs, cv, "none" if st is None else "u(2)"), "spec": dict(base, mapping=mapping),
                              "extents": exts, "policies": ["M", "H"], "allowed_rejects": STATED_REJECTS})
+    # four index variables in one access (linearised 2-D convolution)
+    base = {"decl": {"I": ["W"], "F": ["R", "S"], "O": ["P", "Q"]},
+            "exprs": [E("O", ["p", "q"], times(T("I", {"p": 3, "q": 1, "r": 3, "s": 1}), T("F", "r", "s")))]}
+    exts = [{"P": 2, "Q": 2, "R": 2, "S": 1, "W": 8}, {"P": 1, "Q": 2, "R": 2, "S": 2, "W": 6}]
+    for lo in (None, ["P", "Q", "R", "S"], ["R", "S", "P", "Q"], ["P", "Q", "R", "W"], ["W", "P", "R", "Q"]) if not quick else (None, ["R", "S", "P", "Q"], ["P", "Q", "R", "W"]):
+        mapping = {} if lo is None else {"loop-order": {"O": lo}}
+        work.append({"tag": "F4v/none", "spec": dict(base, mapping=mapping), "extents": exts, "policies": ["M", "H"],
+                     "allowed_rejects": STATED_REJECTS})
     # subsampling Z[m] = A[2*m] / A[3*m]
     for c in (2, 3):
         base = {"decl": {"A": ["W"], "Z": ["M"]}, "exprs": [E("Z", ["m"], times(T("A", {"m": c})))]}
